@@ -19,7 +19,7 @@ use std::time::Instant;
 use universe::*;
 
 pub const MAXN: usize = 4;
-pub const POOLW: usize = 8; // 512 pool items
+pub const POOLW: usize = 12; // 768 pool items
 pub type PId = u16;
 
 #[derive(Clone, Debug)]
@@ -339,7 +339,13 @@ impl Search {
                 self.witness_counts[i].fetch_add(1, Ordering::Relaxed);
             }
         }
-        let out: Vec<PId> = res.out.iter().map(|(m, d)| self.pid(*m, *d)).collect();
+        // messages for rounds beyond the bound are never deliverable: they need no pool slot
+        let out: Vec<PId> = res
+            .out
+            .iter()
+            .filter(|(m, _)| self.uni.msg(*m).round <= self.cfg.max_round + 1)
+            .map(|(m, d)| self.pid(*m, *d))
+            .collect();
         self.put_live(next, ln);
         let t = Arc::new(LTrans { next, out });
         shard.write().unwrap().entry((lid, ev)).or_insert(t).clone()
